@@ -2,11 +2,12 @@
 # usage: seedrun.sh <seed-id> <property> [--tier t] : apply a kept seeded change to /repo, run one property's check, undo it straight afterwards
 id=$1; prop=$2; shift 2
 cd /verif
+cp evidence/$prop.json /tmp/ev_$prop.$$ 2>/dev/null
 git -C /repo apply /verif/seeded/$id/patch.diff || exit 3
 out=$(./check $prop "$@" 2>&1); rc=$?
 git -C /repo checkout -- .
 echo "$out" | grep -E "^VIOLATION|^KNOWN|quick:|thorough:" | sed 's/replay=.*//' | sort | uniq -c | tail -n 4
 echo "SEED $id vs $prop: exit=$rc"
 rm -rf /verif/evidence/replay/${prop}_*
-git -C /verif checkout -- evidence/$prop.json 2>/dev/null
+[ -f /tmp/ev_$prop.$$ ] && mv /tmp/ev_$prop.$$ evidence/$prop.json
 exit 0
